@@ -5,7 +5,7 @@
 (* the contract operators of the specification.  Failures are printed as   *)
 (* JSON, as in TraceCircuit.                                               *)
 (***************************************************************************)
-EXTENDS Integers, Sequences, FiniteSets, TLC, Json, IOUtils, BigNat, RowOps, TransportOps, DensityOps, NetQuadratic
+EXTENDS Integers, Sequences, FiniteSets, TLC, Json, IOUtils, BigNat, RowOps, TransportOps, DensityOps, NetQuadratic, DetailedOps
 
 VARIABLES l, fails
 T == ndJsonDeserialize(IOEnv.TRACE)
@@ -77,6 +77,27 @@ NetScaleFails ==
           ELSE {F("C17", <<"solution changed beyond tolerance when all weights were scaled", Ev.k>>, "net-scale")})
 NetScale == Is("NetScale") /\ fails' = NetScaleFails /\ l' = l + 1
 
+(* C02 / C04 / C05: one swap or insert applied to a real DetailedPlacement built in a state of the DetailedRows model *)
+StOf(len, cs) == [len |-> len, repaired |-> TRUE, w |-> [c \in 1..Len(cs) |-> cs[c].w], pol |-> [c \in 1..Len(cs) |-> cs[c].pol],
+                  seg |-> [c \in 1..Len(cs) |-> cs[c].seg], x |-> [c \in 1..Len(cs) |-> cs[c].x], o |-> [c \in 1..Len(cs) |-> cs[c].o]]
+DetResFails ==
+    LET from == StOf(Ev.len, Ev.from)
+        specRes == IF Ev.act = "swap" THEN SwapRes(from, Ev.args[1], Ev.args[2]) ELSE InsertRes(from, Ev.args[1], Ev.args[2], Ev.args[3])
+        moved == IF Ev.act = "swap" THEN {Ev.args[1], Ev.args[2]} ELSE {Ev.args[1]} IN
+    IF ~Ev.canReal
+    THEN {F("note", <<"guard differs from the transcription", Ev.act, Ev.args>>, "impl-guard-diff")}
+    ELSE LET res == StOf(Ev.len, Ev.res) IN
+         \* contract (decisive): a move the real guard allows does not throw and leaves a legal, consistent, correctly oriented state
+         (IF Ev.threw # "" THEN {F("C02", <<"the guard answered yes but the move threw", Ev.act, Ev.args, Ev.threw>>, "det-throw")} ELSE {}) \cup
+         (IF Ev.threw = "" /\ ~LegalRows(res) THEN {F("C02", <<"move leaves an illegal row structure", Ev.act, Ev.args>>, "det-illegal")} ELSE {}) \cup
+         (IF Ev.threw = "" /\ Ev.check # "" THEN {F("C02", <<"row lists inconsistent after the move", Ev.check>>, "det-inconsistent")} ELSE {}) \cup
+         (IF Ev.threw = "" /\ ~OrientOKRows(res) THEN {F("C04", <<"move leaves a cell with an orientation its polarity forbids", Ev.act, Ev.args>>, "det-orient")} ELSE {}) \cup
+         (IF Ev.threw = "" /\ (res.w # from.w \/ \E c \in CellsOf(from) \ moved : res.x[c] # from.x[c] \/ res.seg[c] # from.seg[c] \/ res.o[c] # from.o[c])
+          THEN {F("C02", <<"move changed a cell it does not concern", Ev.act, Ev.args>>, "det-frame")} ELSE {}) \cup
+         \* implementation-shaped layer (informational): guard and target positions as transcribed
+         {F("note", <<"impl">>, IF Ev.canSpec /\ Ev.threw = "" /\ res = specRes THEN "impl-same" ELSE "impl-diff")}
+DetRes == Is("DetRes") /\ fails' = DetResFails /\ l' = l + 1
+
 AlgoBegin == Is("AlgoBegin") /\ fails' = {} /\ l' = l + 1
 \* an execution that died: memory error, abort or hang inside the algorithm
 BadFate == /\ (Is("Abort") \/ Is("Sanitizer") \/ Is("Timeout"))
@@ -84,12 +105,12 @@ BadFate == /\ (Is("Abort") \/ Is("Sanitizer") \/ Is("Timeout"))
                           <<Ev.e, Ev.stderr>>, Ev.scen \o "-fate")}
            /\ l' = l + 1
 
-Next == RowHist \/ Transport \/ T1d \/ Hier \/ NetSolve \/ NetScale \/ AlgoBegin \/ BadFate
+Next == DetRes \/ RowHist \/ Transport \/ T1d \/ Hier \/ NetSolve \/ NetScale \/ AlgoBegin \/ BadFate
 Spec == Init /\ [][Next]_<<l, fails>>
 
 RECURSIVE SeqOfSet(_)
 SeqOfSet(S) == IF S = {} THEN <<>> ELSE LET e == CHOOSE e \in S : TRUE IN <<e>> \o SeqOfSet(S \ {e})
-Report == fails = {} \/ PrintT(ToJson([run |-> T[l - 1].run, line |-> l - 1, ev |-> T[l - 1].e, fails |-> SeqOfSet(fails)]))
+Report == fails = {} \/ PrintT(ToJson([run |-> IF "run" \in DOMAIN T[l - 1] THEN T[l - 1].run ELSE l - 1, line |-> l - 1, ev |-> T[l - 1].e, fails |-> SeqOfSet(fails)]))
 Short == [l |-> l]
 Post == LET dd == TLCGet("stats").diameter - 1 IN
         IF dd = Len(T) THEN TRUE
